@@ -36,6 +36,10 @@ def oracle(case, out):
         strs = sum(sizes(f.get("s")))
         # a new arena node is sized by the arena's growth policy: twice the node the caller's own allocation filled
         bound = 64 * (nin + nout) + 4096 + 2 * (held + 64)
+        # whatever the call takes from the heap for its temporaries goes back when it returns (the scratch arena may keep a node or two)
+        kept = len(sizes(f.get("m"))) - int(f.get("f", "0"))
+        if kept > 4:
+            return "%s: %d heap blocks requested during the call(s) were not given back (%d requests, %s frees)" % (l, kept, len(sizes(f.get("m"))), f.get("f"))
         if heap > reps * bound:
             return "%s: %d bytes requested from the heap for the scratch arena; inputs %d + outputs %d bytes (bound %d per call)" % (l, heap, nin, nout, bound)
         if strs > bound:
@@ -82,6 +86,12 @@ def gen(ctx):
         strs = [hx(CR.enc(rs(r.choice([0, 1, 4, 7, 8, 30, 120]), r.choice([0.0, 0.3])))) for _ in range(k)]
         for fl in ("f", "c", "fcr", "-"):
             cases.append(["cf sort %s - %s" % (fl, " ".join(strs))])
+    # fold comparison and sorting under a language-specific locale code, installed or not (the locale cache is consulted per call / per element)
+    for loc in ("tr", "lt", "xx_XX", "en"):
+        strs = [hx(CR.enc(rs(r.choice([1, 4, 9, 30]), 0.3))) for _ in range(9)]
+        cases.append(["cf sort f %s %s" % (loc, " ".join(strs))])
+        cases.append(["cf rep 200 sort fr %s %s" % (loc, " ".join(strs[:5]))])
+        cases.append(["cf rep 200 cmp f %s %s %s" % (loc, strs[0], strs[1])])
     # many expanding code points in one string; repetition
     for k in (5, 27, 64, 300, 1000):
         cases.append(["cf up - 4 " + hx(CR.enc([0xDF] * k))])
